@@ -1,5 +1,12 @@
 (* REGENERATED from src/mxlpy/meta/codegen_mxlpy.py and sympy_tools.py by harness/c11.py; do not edit.
    An unrecognised key expression yields KsUnknown, a changed function body yields false; either
    breaks C11_facts_pinned. *)
-From MxlGen Require Import SymRepr.
+From Coq Require Import List.
+From MxlGen Require Import SymRepr Imports CallDefaults.
+Import ListNotations.
 Definition gen_mxlgen_facts : gen_facts := mkGenFacts KsInit KsInit KsPlain KsPlain KsRxnStoich RegFresh true true PnAllArgs IcPositional RnDelegated EmExact.
+(* which sections of the emitted text the import loop of generate_mxlpy_code_from_symbolic_repr searches for which
+   module (None = loop not understood); pinned by C11_text_facts_pinned *)
+Definition gen_import_scan : option scan_table := (Some [(PMath, [SecFunctions; SecVariables; SecParameters; SecReactions]); (PScipySpecial, [SecFunctions; SecVariables; SecParameters; SecReactions]); (PSympyUnits, [SecFunctions; SecVariables; SecParameters; SecReactions])]).
+(* how fn_to_sympy (source_tools.py) binds the arguments of a translated call to the callee's parameters *)
+Definition gen_call_defaults : df_mode := DfRefuse.
